@@ -176,13 +176,13 @@ def default_params(rng, ds, variant):
     p = {"d": variant.get("d", 2), "k": rng.choice([5, 6, 7]) if ds["kind"] != "clusters" else rng.choice([4, 5, 6]), "seed": rng.randint(1, 10 ** 6),
          "nm": variant.get("nm", "brute"), "em": variant.get("em", "dense"),
          "perp": rng.choice([2.0, 3.0, min(4.0, (n - 1) / 3.0)]), "theta": variant.get("theta", 0.0),
-         "maxit": 30, "lr": 0.5, "width": rng.choice([1.0, 2.5]), "ts": rng.choice([1, 2, 3]),
+         "maxit": variant.get("maxit", 30), "lr": 0.5, "width": rng.choice([1.0, 2.5]), "ts": rng.choice([1, 2, 3]),
          "speg": variant.get("speg", 1), "spen": 20, "sq": 0.9, "wd": 20,
          "off": variant.get("off", rng.choice([3, 100, 1000]))}
     if variant.get("perm"):
         p["perm"] = rng.randint(1, 10 ** 6)    # the integers of the index sequences are permuted (families U, Y)
     if variant.get("min"):
-        p["min"] = 1                           # only method + target dimension are set: library defaults elsewhere
+        p["min"] = 1      # only method, target dimension, max_iteration, squishing_rate are set: library defaults elsewhere
     return p
 
 
@@ -876,13 +876,13 @@ def plan(ctx, tier, rng, extra_search=False):
                  ("generic", 20, 4, {"nm": "covertree", "em": "dense", "speg": 0}),
                  ("clusters", 18, 2, {"nm": "brute", "em": "dense", "reduced": 1, "perm": 1}),
                  # shapes: MORE FEATURES THAN SAMPLES (the feature matrix is tall), and as many features as samples
-                 ("dyadic", 16, 24, {"nm": "brute", "em": "dense", "reduced": 1}),
-                 ("generic", 17, 17, {"nm": "vptree", "em": "dense", "reduced": 1, "speg": 0, "perm": 1}),
+                 ("dyadic", 16, 24, {"nm": "brute", "em": "dense", "reduced": 1, "maxit": 12}),
+                 ("generic", 17, 17, {"nm": "vptree", "em": "dense", "reduced": 1, "maxit": 12, "speg": 0, "perm": 1}),
                  # a large common offset (2^20 against a spread of +-7), exact duplicates among the samples
-                 ("offset", 16, 3, {"nm": "covertree", "em": "dense", "reduced": 1}),
-                 ("dups", 18, 3, {"nm": "brute", "em": "dense", "reduced": 1, "perm": 1}),
+                 ("offset", 16, 3, {"nm": "covertree", "em": "dense", "reduced": 1, "maxit": 12}),
+                 ("dups", 18, 3, {"nm": "brute", "em": "dense", "reduced": 1, "maxit": 12, "perm": 1}),
                  # every keyword but method and target dimension left to the library's defaults; ties (half-integer lattice)
-                 ("lattice", 24, 3, {"reduced": 1, "min": 1, "perm": 1})]
+                 ("lattice", 24, 3, {"reduced": 1, "maxit": 12, "min": 1, "perm": 1})]
     else:
         specs = [("dyadic", 18, 3, {"nm": "brute", "em": "dense"}),
                  ("generic", 20, 4, {"nm": "covertree", "em": "dense", "speg": 0}),
@@ -890,7 +890,7 @@ def plan(ctx, tier, rng, extra_search=False):
                  ("generic", 24, 5, {"nm": "brute", "em": "randomized"}),
                  ("dyadic", 30, 2, {"nm": "covertree", "em": "dense", "speg": 0, "perm": 1}),
                  ("generic", 17, 3, {"nm": "vptree", "em": "dense"}),
-                 ("lattice", 24, 3, {"reduced": 1, "min": 1}),
+                 ("lattice", 24, 3, {"reduced": 1, "maxit": 12, "min": 1}),
                  ("generic", 25, 40, {"nm": "brute", "em": "dense", "reduced": 1}),
                  ("lattice", 15, 16, {"nm": "covertree", "em": "dense", "reduced": 1}),
                  ("dyadic", 19, 19, {"nm": "vptree", "em": "dense", "reduced": 1})]
